@@ -267,6 +267,9 @@ class CheckInput(Contract):
         o = a["opts"]
         deco = I.call(fn, [a["schema"], a["getter"], o["head"], o["tail"], o["sample"], o["random_state"], o["lazy"], o["inplace"]], {})
         wrapper = I.call(deco, [a["fn"]], {})
+        from pyvc.spec import freeze_heap
+
+        freeze_heap(cur())  # decoration-time state is pre-existing state of every call: unchanged on every exit (no state between calls)
         return I.call(wrapper, list(a["frame"].args), dict(a["frame"].kwargs))
 
     # -- the specification (independent of getter kind and of call shape: the designation-equivalence lemma below)
@@ -419,6 +422,9 @@ class CheckOutput(Contract):
         o = a["opts"]
         deco = I.call(fn, [a["schema"], a["getter"], o["head"], o["tail"], o["sample"], o["random_state"], o["lazy"], o["inplace"]], {})
         wrapper = I.call(deco, [a["fn"]], {})
+        from pyvc.spec import freeze_heap
+
+        freeze_heap(cur())  # decoration-time state is pre-existing state of every call: unchanged on every exit (no state between calls)
         return I.call(wrapper, list(a["frame"].args), dict(a["frame"].kwargs))
 
     def allowed_exception(self, exc, **a):
@@ -544,6 +550,9 @@ class CheckIO(Contract):
         o = a["opts"]
         deco = I.call(fn, [o["head"], o["tail"], o["sample"], o["random_state"], o["lazy"], o["inplace"]], dict(out=a["out_arg"], **a["in_schemas"]))
         wrapper = I.call(deco, [a["fn"]], {})
+        from pyvc.spec import freeze_heap
+
+        freeze_heap(cur())  # decoration-time state is pre-existing state of every call: unchanged on every exit (no state between calls)
         return I.call(wrapper, list(a["frame"].args), dict(a["frame"].kwargs))
 
     def _inputs(self, a):
